@@ -10,6 +10,7 @@ from .. import repo
 from ..oracles import proptable as pt
 from ..oracles import tb
 
+READY = True
 LEVEL = 'exploration'
 TECHNIQUE = ('runtime post-condition monitoring of the real prove_tautology / to_conj_form / propag_neg / to_cnf / to_clauses / '
              'start_resolution_algorithm (every call, including the recursive ones) against truth tables, shape predicates and '
